@@ -189,6 +189,8 @@ class ProgGen:
             ks += ["ascii"]
         if p.incbin and not in_macro and not in_loop:
             ks += ["incbin"]
+        if p.text:
+            ks += ["text"] * 2
         ks += ["label"] * 3
         if p.self_pointers:
             ks += ["selfptr"] * 2
@@ -477,6 +479,13 @@ class ProgGen:
                 out.append({"k": "data", "d": d, "es": [self.value_expr(gs) for _ in range(rng.choice([1, 1, 2, 3, 6]))]})
             elif k == "ascii":
                 out.append({"k": "ascii", "s": "".join(rng.choice("abcXYZ 019;{}#,.") for _ in range(rng.randint(1, 12)))})
+            elif k == "text":
+                # table-encoded text: multi-character entries, multi-byte codes, unknown characters and [0xNN] escapes make
+                # the emitted length differ from the number of characters written
+                parts = []
+                for _ in range(rng.randint(1, 8)):
+                    parts.append(rng.choice(["a", "b", "ab", "the ", "~", "Z", "?", " ", "[0x7f]", "[0x1]", "abc", "x"]))
+                out.append({"k": "text", "s": "".join(parts)})
             elif k == "incbin":
                 self.n_file += 1
                 f = f"bin{self.n_file}.dat"
@@ -606,6 +615,9 @@ class ProgGen:
                 skel.insert(rng.randint(0, len(skel)), {"k": "call", "m": rng.choice(self.macros)})
                 ncalls += 1
         ir = list(head)
+        if self.p.text:
+            self.files["t0.tbl"] = "01=a\n02=b\n03=ab\n10=the \nF0F1=~\n0405=abc\n20= \n"
+            ir.append({"k": "table", "f": "t0.tbl"})
         if self.usermap:
             ir = [{"k": "map", "spec": sp} for sp in self.usermap] + ir
         ir.append({"k": "org", "a": self.rom_address()})
